@@ -85,6 +85,11 @@ THEOREMS = [
     "OllamaVerif.C08.put_ok_stays_retrievable",
     "OllamaVerif.C08.import_ok_stays_retrievable",
     "OllamaVerif.C08.stepOpL_eq_stepOp",
+    # chunker sessions (one Chunked, several Chunker.Put: state reused across calls)
+    "OllamaVerif.C08.session_single",
+    "OllamaVerif.C08.copyLoop_append",
+    "OllamaVerif.C08.tiles_run",
+    "OllamaVerif.C08.session_tiling_complete",
     "OllamaVerif.C08.crashHist_nonvacuous",
     "OllamaVerif.C08.size_lie_after_crash_present_wrong_content",
     "OllamaVerif.C08.undisciplined_put_destroys_linked_blob",
@@ -245,7 +250,8 @@ REQUIRED_COUNTERS = [
     "res_resolve_err:invalidname", "res_resolve_err:notexist",
     # Chunked
     "branch_chunk_same_size_shortcut", "branch_chunk_over_shorter", "branch_chunk_absent", "res_chunk_ok", "res_chunk_err:short",
-    "res_chunk_err:src", "res_chunk_err:underfoot",
+    "res_chunk_err:src", "res_chunk_err:underfoot", "op_session", "branch_session_complete_ok", "res_session_all-ok",
+    "res_session_some-refused", "branch_session_same_size_shortcut",
     # crash cuts: every effect kind killed at least once, every store kind, the real traces
     "crash_cases_put", "crash_cases_import", "crash_cases_chunk", "crash_cases_link", "crash_cases_resolve", "l2_chunk_twin_checked", "crash_runs_killed_open",
     "crash_runs_killed_write", "crash_runs_killed_trunc", "crash_runs_killed_rename", "crash_runs_killed_link_open",
